@@ -386,33 +386,50 @@ ALLOWED_NAMES = {"obj", "o", "self", "key", "hashlist", "myhash", "str", "bool",
                  "ValueError", "numbers"}
 
 
+IMPURE_NAMES = {"hash", "id", "repr", "random", "time", "os", "uuid", "globals", "locals", "vars", "set", "frozenset",
+                "object", "getpid", "environ", "datetime", "secrets"}
+IMPURE_ATTRS = {"__hash__", "__repr__", "__dict__", "random", "urandom", "getpid", "time", "perf_counter", "now"}
+
+
 def unit_purity(tier=None, seed=None):
+    """Syntactic obligation: neither _hash / obj2bytes nor any function of fit.py they (transitively) call uses a
+    construct whose result depends on object identity, the hash seed, the clock or other process state.  This is a
+    BLACKLIST of such constructs -- helper functions, local names and the hashing library calls are free to change
+    (a whitelist of names reported a harmless refactoring as a violation; see DESIGN.md 8.5)."""
     res = UnitResult(unit="purity")
     tree = ast.parse((SRC / "fit.py").read_text())
-    fns = {}
+    defs = {}
     for node in ast.walk(tree):
-        if isinstance(node, ast.FunctionDef) and node.name in ("obj2bytes", "_hash"):
-            fns[node.name] = node
+        if isinstance(node, ast.FunctionDef):
+            defs.setdefault(node.name, node)
+    todo, seen = ["obj2bytes", "_hash"], []
     bad = []
-    for name, fn in fns.items():
-        for n in ast.walk(fn):
+    while todo:
+        name = todo.pop()
+        if name in seen or name not in defs:
+            continue
+        seen.append(name)
+        for n in ast.walk(defs[name]):
             if isinstance(n, ast.Call):
                 f = n.func
-                cname = f.id if isinstance(f, ast.Name) else (f.attr if isinstance(f, ast.Attribute) else "?")
-                if cname not in ALLOWED_CALLS:
-                    bad.append(f"{name}: call of {cname} (line {n.lineno})")
-            elif isinstance(n, ast.Name) and isinstance(n.ctx, ast.Load) and n.id not in ALLOWED_NAMES:
-                bad.append(f"{name}: reads name {n.id} (line {n.lineno})")
+                cname = f.id if isinstance(f, ast.Name) else (f.attr if isinstance(f, ast.Attribute) else None)
+                if cname in defs and cname not in seen:
+                    todo.append(cname)
+            if isinstance(n, ast.Name) and isinstance(n.ctx, ast.Load) and n.id in IMPURE_NAMES:
+                bad.append(f"{name}: uses {n.id} (line {n.lineno})")
+            elif isinstance(n, ast.Attribute) and n.attr in IMPURE_ATTRS:
+                bad.append(f"{name}: uses .{n.attr} (line {n.lineno})")
             elif isinstance(n, (ast.Global, ast.Nonlocal, ast.Set, ast.SetComp)):
                 bad.append(f"{name}: {type(n).__name__} (line {n.lineno})")
-    ok = len(fns) == 2 and not bad
+    ok = {"obj2bytes", "_hash"} <= set(seen) and not bad
     res.obligations.append(ObResult(
         oid="C12.purity.no_identity_or_seed_dependent_construct", status=DISCHARGED if ok else REFUTED,
-        backend="syntactic", paths=len(fns),
-        detail="whitelist scan of _hash and obj2bytes: no hash()/id()/repr()/set/global state"
+        backend="syntactic", paths=len(seen),
+        detail=f"blacklist scan of {', '.join(seen)}: no hash()/id()/repr()/set/clock/random/global state"
         if ok else "; ".join(bad)[:400], model={"offending": bad} if bad else None,
         replay={"confirmed": bool(bad), "note": "syntactic obligation: the offending construct is the witness"}))
-    res.trusted.append("purity is decided syntactically (whitelist of calls and names in _hash/obj2bytes)")
+    res.trusted.append("purity is decided syntactically (blacklist of identity/seed/clock dependent constructs in _hash, "
+                       "obj2bytes and the fit.py functions they call)")
     return res
 
 
